@@ -14,7 +14,8 @@ import contextvars
 import sys
 import threading
 
-sys.path.insert(0, "/repo")
+import paths  # noqa: E402
+sys.path.insert(0, paths.REPO)
 
 from statemachine import State, StateMachine  # noqa: E402
 from statemachine.factory import StateMachineMetaclass  # noqa: E402
